@@ -23,6 +23,7 @@ EXPLANATION = (
     ' Round 4 (added): CLOSURE -- candidate sites of generate_trap_coordinates are kept iff dist > min_trap_dist (strict, so a placed site leaves the region even for a zero minimum distance); DISPATCH -- validate_register validates the atoms on a path that does not depend on register.layout; GUARD -- the radial distance is compared as computed (no rounding).'
     ' Round 5 (added): the capacity of a layout is not a bare truncated float product; the radial check has the tolerance of the coordinate precision (on the difference); max_connectivity validates its result with the device; offenders keep their own IDs.'
     ' Round 6 (added after the fifth independent round of breaking changes): the capacity correction admits a filling met exactly: one more qubit under (q + 1) / n_traps <= filling (non-strict), one less only under q / n_traps > filling (strict).'
+    ' Round 7 (added after the sixth, smaller round of breaking changes): the radial check takes the norm of the coordinates themselves (distance from the origin: no shift by a mean or another reference point).'
 )
 ASSUMPTIONS = ["guards matched structurally; Optional-ness from declared annotations"]
 
